@@ -445,6 +445,11 @@ example : admitMsg id .gjkr exCtx (exMsg 0 7) = .dropped := by decide
 example : admitMsg id .gjkr exCtx (exMsg 1 7) = .dropped := by decide   -- own seat
 example : admitMsg id .follower exCtx (exMsg 3 7) = .faultImpersonation := by decide
 example : admitMsg id .follower exCtx (exMsg 2 8) = .stored := by decide
+-- leader id: first seat up to 255 seats; above, the smallest wrapped `MemberIndex` (as `slices.Sort` yields)
+example : firstSeat [7, 8, 7] 7 = some 1 := by decide
+example : firstSeat [7, 8, 8] 8 = some 2 := by decide
+set_option maxRecDepth 8000 in
+example : firstSeat (List.replicate 253 1 ++ [2, 2, 2, 2]) 2 = some 0 := by decide
 -- the monitor rejects an implementation that stores a spoofed / own / wrong-session message
 example : holds id .gjkr exCtx (exMsg 2 7) .stored = false := by decide
 example : holds id .gjkr exCtx (exMsg 0 7) .stored = false := by decide
